@@ -4,6 +4,8 @@ R13.1 gate dominance (approved): every effect (call other than the gate itself /
       non-local memory) is dominated by the pass edge of `if (isal_self_tests())`; the fail edge leads,
       effect-free, to `ret ISAL_CRYPTO_ERR_SELF_TEST`.
 R13.2 non-approved: only possible return value is ISAL_CRYPTO_ERR_FIPS_INVALID_ALGO, no call, no store.
+R13.5 no approved entry point returns 0 (success) on a path that has not passed the gate (fail closed also for calls
+      that have nothing to do, e.g. a zero length).
 R13.3 XTS key equality: internal call dominated by the non-zero edge of memcmp(k1,k2,n), n from the callee.
 R13.4 the gate is real: isal_self_tests returns 0 only when the status check returned 0 or the freshly run
       suites both returned 0.
@@ -132,6 +134,7 @@ def check_approved(chk, src, F, SELF, SAME):
     xts_bad = {IC.id: None for IC in internal}
     xts_seen = {IC.id: False for IC in internal}
     nfail = 0
+    ungated_ok = None
     for P in paths:
         passed_at = None
         failed_at = None
@@ -175,6 +178,8 @@ def check_approved(chk, src, F, SELF, SAME):
                 at = cmp_ne_at.get(n_exp)
                 if at is None or at >= pos:
                     xts_bad[I.id] = xts_bad[I.id] or ("cipher call is not preceded by memcmp(k1,k2,%s) != 0" % n_exp)
+        if passed_at is None and isinstance(P.ret, int) and P.ret == 0:
+            ungated_ok = ungated_ok or P.retinst
         if failed_at is not None:
             nfail += 1
             if P.ret != SELF:
@@ -187,6 +192,9 @@ def check_approved(chk, src, F, SELF, SAME):
         E = undominated or effects_all[0]
         what = E.callee if E.op == "call" else "store"
         chk.finding(Finding("R13.1", src, F.name, "ungated:" + str(what), "%s is reachable without passing the isal_self_tests() == 0 edge (%d gate(s) in function)" % (what, ngates), loc=E.loc()))
+    chk.obligation("R13.5", ungated_ok is None, key=(F.name, "success-needs-gate"), sample={"function": F.name})
+    if ungated_ok is not None:
+        chk.finding(Finding("R13.5", src, F.name, "ungated-success", "a path returns 0 (success) without having passed the isal_self_tests() == 0 edge: the call reports success although the self-tests may have failed or never run", loc=ungated_ok.loc()))
     ok_fail = fail_eff is None and fail_ret is None and SELF is not None and (nfail >= 1 or not effects_all)
     chk.obligation("R13.1-fail", ok_fail, key=(F.name, "fail"), sample={"function": F.name, "failing_gate_paths": nfail})
     if fail_eff is not None:
